@@ -8,9 +8,12 @@ from props import _rescale as K
 ENV_BY_TIER = {"quick": {"NUMBA_DISABLE_JIT": "1"}, "thorough": {}}
 
 RULE = ("msprime tree sequences with all samples at time 0 (2-8 samples, 5-1000 bp, 1-40 trees, Kingman/Beta/Dirac "
-        "mergers, 0-60 mutations, optionally extra mutations placed above a root) x num_intervals {1,2,3,5,100} x "
-        "num_iterations {0,1,2,10} x match_segregating_sites x mutation_rate; plus inputs with ancient samples (must be "
-        "rejected with ValueError). Non-trivial: the call returned and moved at least one node time; distinct by "
+        "mergers, 0-60 mutations) x num_intervals {1,2,3,5,100} x num_iterations {0,1,2,10} x match_segregating_sites x "
+        "mutation_rate; 25% with non-sample times moved to a coarse grid (unrelated nodes tied at non-zero ages), 15% with "
+        "extra mutations above non-sample roots, about 45% with vlib.gen.exotic decorations (extra node flag bits, all "
+        "nodes renumbered at random, root mutations, mutation-free sites, unknown mutation times, arbitrary allele states, "
+        "populations), 30% with the options passed as np.int32/np.int64/np.bool_ and the rate as np.float64/np.float32; "
+        "plus inputs with ancient samples (must be rejected with ValueError). Non-trivial: the call returned and moved at least one node time; distinct by "
         "content hash")
 ASSUME = [
     "count_mutations (C24) and _fixed_changepoints (C26) are outside this model: their results are recorded from the "
@@ -29,26 +32,31 @@ def make_input(rng):
     from vlib import gen
     ancient = rng.random() < 0.06
     ts = gen.sim_ts(rng, n=rng.randint(2, 8), historical=ancient, L=rng.choice([5, 20, 100, 1000]))
-    if not ancient and rng.random() < 0.3:
-        # mutations above a root: a new site (or an existing position) with a mutation on the root there
-        tables = ts.dump_tables()
-        used = set(tables.sites.position)
-        for _ in range(rng.randint(1, 3)):
-            x = float(rng.randrange(0, int(ts.sequence_length)))
-            if x in used:
-                continue
-            used.add(x)
-            root = ts.at(x).root
-            s = tables.sites.add_row(x, "0")
-            tables.mutations.add_row(site=s, node=root, derived_state="1")
-        tables.sort()
-        tables.build_index()
-        tables.compute_mutation_parents()
-        ts = tables.tree_sequence()
-    kw = {"num_intervals": rng.choice([1, 2, 3, 5, 100]), "num_iterations": rng.choice([0, 1, 2, 2, 10]),
+    kinds = []
+    if not ancient:
+        if rng.random() < 0.25:
+            ts = K.tie_times(rng, ts)          # unrelated nodes sharing a non-zero age
+            kinds.append("tied_times")
+        if rng.random() < 0.15:
+            ts = gen.add_root_mutations(rng, ts)   # mutations above a non-sample root
+            kinds.append("root_mutations")
+        ts, ex = K.maybe_exotic(rng, ts)
+        kinds += [k for k in ex if k not in kinds]
+    kw = {"num_intervals": rng.choice([1, 2, 3, 5, 100]), "num_iterations": rng.choice([0, 1, 1, 2, 2, 10]),
           "match_segregating_sites": rng.random() < 0.5}
     mu = rng.choice([0.3, 1.0, 3.0]) / ts.sequence_length
-    return ts, mu, kw, ancient
+    typed = rng.random() < 0.3          # options as numpy scalars, mutation_rate as np.float64 / np.float32
+    return ts, mu, kw, ancient, kinds, typed
+
+
+def call_args(mu, kw, typed, rng_choice=0):
+    """the arguments as actually passed (numpy-typed variant of the same values)"""
+    if not typed:
+        return mu, kw
+    kw2 = {"num_intervals": np.int32(kw["num_intervals"]), "num_iterations": np.int64(kw["num_iterations"]),
+           "match_segregating_sites": np.bool_(kw["match_segregating_sites"])}
+    mu2 = np.float64(mu) if rng_choice == 0 else np.float32(mu)
+    return mu2, kw2
 
 
 def diagnose(calls):
@@ -119,74 +127,93 @@ def oracle(ctx, ts, mu, kw, ancient, st, out, calls, rp):
                     return
 
 
-def model_item(ts, calls, kw, mu):
-    """inputs of Rescale.rescale_ts_times.  The (mutations, span * mutation_rate) rows and the
-    mutation -> edge map come from count_mutations called HERE (C24 owns that function), with the
-    flag the documentation prescribes, so that the model also covers how rescale_tree_sequence
-    prepares them; the changepoints of each iteration come from the recorded calls (C26)."""
+def model_inputs(ts, kw, mu):
+    """what rescale_tree_sequence must hand to the kernels: count_mutations (C24 owns that function)
+    called HERE with the flag the documentation prescribes, spans times the mutation rate"""
     import tsdate.rescaling as R
     liks, medge = R.count_mutations(ts, size_biased=not kw["match_segregating_sites"])
-    liks = [[float(a), float(b) * mu] for a, b in liks]
-    tcalls = [c for c in calls if c[0] == "mutational_timescale"]
-    cpss = []
-    for _nm, args, _res in tcalls:
-        _case, _area, cps = K.changepoints_of_call(args)
-        if cps is None:
-            return None
-        cpss.append(cps)
+    liks = [[float(a), float(b) * float(mu)] for a, b in liks]
     samples = set(ts.samples())
-    return {"t": [float(x) for x in ts.nodes_time], "fixed": [u in samples for u in range(ts.num_nodes)],
-            "liks": liks, "parent": [int(x) for x in ts.edges_parent], "child": [int(x) for x in ts.edges_child],
-            "cpss": cpss, "muts": [(None if int(e) < 0 else int(e), int(n)) for e, n in zip(medge, ts.mutations_node)]}
+    fixed = [u in samples for u in range(ts.num_nodes)]
+    muts = [(None if int(e) < 0 else int(e), int(n)) for e, n in zip(medge, ts.mutations_node)]
+    return liks, fixed, muts
 
 
 def block(ctx, model_ok, n):
     from vlib import gen
     runs = []
     for _ in range(n):
-        ts, mu, kw, ancient = make_input(ctx.rng)
-        st, out, calls = K.run_rescale_ts(ts, mu, **kw)
-        runs.append((ts, mu, kw, ancient, st, out, calls))
+        ts, mu, kw, ancient, kinds, typed = make_input(ctx.rng)
+        mu_used = mu
+        if typed:
+            which = ctx.rng.randrange(2)
+            mu_a, kw_a = call_args(mu, kw, True, which)
+            mu_used = float(mu_a)                    # np.float32 rounds the rate: that value is the input
+        else:
+            mu_a, kw_a = mu, kw
+        st, out, calls = K.run_rescale_ts(ts, mu_a, **kw_a)
+        runs.append((ts, mu_used, kw, ancient, st, out, calls, kinds, typed))
     if model_ok:
-        items, idx = [], []
-        for k, (ts, mu, kw, ancient, st, out, calls) in enumerate(runs):
+        # one iteration at a time from the node times the implementation had (see _rescale.model_steps),
+        # the chaining of the iterations, then the mutation times from the final node times
+        sitems, sref, fitems, fref = [], [], [], []
+        for k, (ts, mu, kw, ancient, st, out, calls, kinds, typed) in enumerate(runs):
             if ancient:
                 continue
-            it = model_item(ts, calls, kw, mu)
-            # a run that died in the middle has fewer recorded iterations than the model needs
-            complete = len(it["cpss"]) == kw["num_iterations"] if it is not None else False
-            if it is not None and (st == "ok" or not complete):
-                if st != "ok":
-                    continue
-                items.append(it)
-                idx.append(k)
-            elif it is not None and complete and "AssertionError" in st:
-                items.append(it)
-                idx.append(k)
-        model = K.model_rescale_ts(ctx, items) if items else []
-        for k, it, m in zip(idx, items, model):
-            ts, mu, kw, ancient, st, out, calls = runs[k]
-            rp = {"input": {"tables": gen.ts_tables_dict(ts), "mu": mu, "kw": kw}, "status": st, "model": m}
-            if st != "ok":
-                ctx.corr("rescale_tree_sequence (rejected)", m is None, "impl=%s model=%r" % (st, m), replay=rp)
+            rp = {"input": {"tables": gen.ts_tables_dict(ts), "mu": mu, "kw": kw}, "status": st}
+            liks, fixed, muts = model_inputs(ts, kw, mu)
+            parent, child = [int(x) for x in ts.edges_parent], [int(x) for x in ts.edges_child]
+            steps = K.loop_steps(calls, fixed, parent, child, liks=liks)
+            if steps is None:
                 continue
-            ok = m is not None and K.close_list([float(x) for x in out.nodes_time], m[0], **TOL)
+            t0 = [float(x) for x in ts.nodes_time]
+            chain = (not steps) or K.close_list(steps[0]["t"], t0)
+            for j in range(1, len(steps)):
+                prev = steps[j - 1]["pe_res"]
+                chain = chain and prev is not None and not isinstance(prev, Exception) \
+                    and K.close_list(steps[j]["t"], [float(v) for v in prev])
+            if st == "ok":
+                chain = chain and len(steps) == kw["num_iterations"]
+                final = [float(v) for v in steps[-1]["pe_res"]] if steps else t0
+                chain = chain and K.close_list([float(x) for x in out.nodes_time], final)
+                fitems.append({"t": final, "fixed": fixed, "liks": liks, "parent": parent, "child": child,
+                               "cpss": [], "muts": muts})
+                fref.append((k, rp))
+            ctx.corr("rescale_tree_sequence loop chaining", chain, "iteration inputs / returned node times are not the previous outputs",
+                     replay=rp)
+            pick = steps if (ctx.tier == "thorough" or len(steps) <= 3) else [steps[0], steps[1], steps[-1]]
+            for stp in pick:
+                sitems.append(stp)
+                sref.append(rp)
+        sm = K.model_steps(ctx, sitems) if sitems else []
+        for stp, rp, m in zip(sitems, sref, sm):
+            ctx.corr("rescale_tree_sequence iteration", K.step_agrees(stp, m, rel=1e-12),
+                     "impl=%r model=%r" % ((stp["ts_res"], stp["pe_res"]), m),
+                     replay=dict(rp, step={k2: stp[k2] for k2 in ("t", "cps")}, model=m))
+        fm = K.model_rescale_ts(ctx, fitems) if fitems else []
+        for (k, rp), m in zip(fref, fm):
+            ts, out = runs[k][0], runs[k][5]
+            ok = m is not None
             if ok:
                 exp = {}
                 for (site, node), tm in zip(zip(ts.mutations_site, ts.mutations_node), m[1]):
                     exp[(int(site), int(node))] = tm
                 for mu_ in out.mutations():
-                    if not K.close(float(mu_.time), exp.get((mu_.site, mu_.node), float("nan")), **TOL):
+                    if not K.close(float(mu_.time), exp.get((mu_.site, mu_.node), float("nan"))):
                         ok = False
-            ctx.corr("rescale_tree_sequence times", ok,
-                     "impl nodes=%r model=%r" % ([float(x) for x in out.nodes_time][:12], m), replay=rp)
-    for ts, mu, kw, ancient, st, out, calls in runs:
-        rp = {"input": {"tables": gen.ts_tables_dict(ts), "mu": mu, "kw": kw, "ancient": ancient}, "status": st}
+            ctx.corr("rescale_tree_sequence mutation times", ok, "model=%r" % (m,), replay=rp)
+    for ts, mu, kw, ancient, st, out, calls, kinds, typed in runs:
+        rp = {"input": {"tables": gen.ts_tables_dict(ts), "mu": mu, "kw": kw, "ancient": ancient, "exotic": kinds,
+                        "numpy_typed": typed}, "status": st}
         moved = st == "ok" and not np.array_equal(out.nodes_time, ts.nodes_time)
-        ctx.case({"ts": gen.ts_summary(ts), "mu": mu, "kw": kw, "ancient": ancient, "status": st,
+        for k2 in kinds:
+            ctx.tally("exotic:" + k2)
+        ctx.case({"ts": gen.ts_summary(ts), "mu": mu, "kw": kw, "ancient": ancient, "status": st, "exotic": kinds,
+                  "numpy_typed": typed,
                   "times_before": [float(x) for x in ts.nodes_time][-6:],
                   "times_after": [float(x) for x in out.nodes_time][-6:] if out is not None else None},
-                 nontrivial=moved, kind=("ancient/" if ancient else "") + ("ok" if st == "ok" else st.split(":")[1]))
+                 nontrivial=moved, kind=("ancient/" if ancient else "") + ("ok" if st == "ok" else st.split(":")[1])
+                 + ("/numpy-typed" if typed else ""))
         oracle(ctx, ts, mu, kw, ancient, st, out, calls, rp)
 
 
